@@ -80,6 +80,12 @@ class ExtVal:
     def __init__(self, dotted):
         self.dotted = dotted
 
+    def __call__(self, *args, **kwargs):
+        ev = _ACTIVE[0]
+        if ev is None:
+            raise Undecided(f"call of external {self.dotted} outside a fold")
+        return ev.call(self, list(args), kwargs)
+
     def __repr__(self):
         return f"<Ext {self.dotted}>"
 
@@ -871,6 +877,13 @@ class Evaluator:
             idx = next((i for i, c in enumerate(mro) if c is start_after), None)
             mro = mro[idx + 1 :] if idx is not None else []
         for c in mro:
+            if isinstance(c, ClassInfo) and attr == "__init__" and attr not in c.methods and isinstance(obj, ObjVal) and \
+                    any(d.split("(")[0].split(".")[-1] == "dataclass" for d in c.decorators):
+                return _NativeFn(lambda *a, _c=c, **k: self._dataclass_init(_c, obj, list(a), k))
+            if not isinstance(c, ClassInfo) and c.split(".")[-1] in ("Mapping", "MutableMapping") and isinstance(obj, ObjVal):
+                mix = self._mapping_mixin(obj, attr)
+                if mix is not None:
+                    return mix
             if not isinstance(c, ClassInfo):
                 # external base: dict/list/abc.ABC/object
                 if c == "list":
@@ -924,9 +937,56 @@ class Evaluator:
             return _NativeFn(lambda name: self.default_getattr(obj, name, node))
         if attr == "__class__":
             return ClassVal(self, cinfo)
+        if attr == "__dataclass_fields__" and self._class_kind(cinfo) == "dataclass":
+            return {n: record("dataclass_field_info", name=n) for n, _d, _c in self._fields(cinfo)}
+        if attr == "_fields" and self._class_kind(cinfo) == "namedtuple":
+            return tuple(n for n, _d, _c in self._fields(cinfo))
+        if attr == "__dict__" and isinstance(obj, ObjVal):
+            return obj.attrs
+        if attr.startswith("__") and attr.endswith("__") and attr not in ("__call__", "__iter__", "__len__", "__getitem__", "__contains__", "__eq__", "__hash__", "__enter__", "__exit__",
+                                                                         "__add__", "__radd__", "__mul__", "__rmul__", "__sub__", "__rsub__", "__neg__", "__truediv__", "__lt__", "__le__",
+                                                                         "__gt__", "__ge__", "__ne__", "__bool__", "__str__", "__repr__", "__setitem__", "__delitem__", "__post_init__",
+                                                                         "__next__", "__getattr__", "__setattr__", "__matmul__", "__pow__", "__abs__", "__float__", "__int__", "__index__"):
+            # every Python object carries implicit special attributes this model does not list: not knowing one is not an AttributeError of the code
+            raise Undecided(f"special attribute {attr} of a {cinfo.name} object")
         if attr == "__getattribute__":
             return _NativeFn(lambda name: self.getattr(obj, name, node))
         raise Raised("AttributeError", f"{cinfo.name} object has no attribute {attr}", node)
+
+    def _mapping_mixin(self, obj, attr):
+        """collections.abc.Mapping: keys / items / values / get / __contains__ / __eq__ in terms of __getitem__, __iter__, __len__."""
+        def keys():
+            return list(self.iterate(obj))
+
+        def getitem(k):
+            return self.call(self.getattr(obj, "__getitem__", None), [k], {})
+
+        if attr == "keys":
+            return _NativeFn(keys)
+        if attr == "values":
+            return _NativeFn(lambda: [getitem(k) for k in keys()])
+        if attr == "items":
+            return _NativeFn(lambda: [(k, getitem(k)) for k in keys()])
+        if attr == "get":
+            def get(k, default=None):
+                try:
+                    return getitem(k)
+                except Raised as r:
+                    if r.etype == "KeyError":
+                        return default
+                    raise
+            return _NativeFn(get)
+        if attr == "__contains__" and obj.cinfo.find_method("__contains__") is None:
+            def contains(k):
+                try:
+                    getitem(k)
+                    return True
+                except Raised as r:
+                    if r.etype == "KeyError":
+                        return False
+                    raise
+            return _NativeFn(contains)
+        return None
 
     def ext_attr(self, obj, attr):
         d = _canon_ext(f"{obj.dotted}.{attr}")
@@ -1012,7 +1072,23 @@ class Evaluator:
         obj = ObjVal(cv.cinfo)
         own_init = cv.cinfo.find_method("__init__")
         if kind in ("dataclass", "namedtuple") and own_init is None:
-            fields = self._fields(cv.cinfo)
+            self._dataclass_init(cv.cinfo, obj, args, kwargs)
+            return obj
+        init = self.class_lookup(obj, cv.cinfo, "__init__", None, None)
+        self.call(init, args, kwargs)
+        return obj
+
+    def _dataclass_init(self, cinfo, obj, args, kwargs):
+        """The __init__ a @dataclass / NamedTuple class gets: fields of the class and its bases in order, defaults, __post_init__."""
+        kind = self._class_kind(cinfo)
+
+        class _CV:
+            pass
+
+        cv = _CV()
+        cv.cinfo = cinfo
+        if True:
+            fields = self._fields(cinfo)
             names = [f[0] for f in fields]
             if len(args) > len(names):
                 raise Raised("TypeError", f"{cv.cinfo.name}() takes {len(names)} positional arguments but {len(args)} were given")
@@ -1043,10 +1119,7 @@ class Evaluator:
             post = cv.cinfo.find_method("__post_init__")
             if post is not None:
                 self.call(FuncVal(self, post, bound=obj), [], {})
-            return obj
-        init = self.class_lookup(obj, cv.cinfo, "__init__", None, None)
-        self.call(init, args, kwargs)
-        return obj
+            return None
 
     def call(self, f, args, kwargs, node=None):
         if isinstance(f, FuncVal):
@@ -2134,6 +2207,13 @@ class Evaluator:
                 raise Raised("TypeError", str(e), n)
         if isinstance(o, OpaqueObj):
             return OpaqueObj(f"{o.label}[{k!r}]")
+        if isinstance(o, ClassVal) and self._class_kind(o.cinfo) == "enum":
+            if not isinstance(k, str):
+                raise Raised("KeyError", repr(k), n)
+            for m in self.enum_members(o.cinfo):
+                if m.attrs["name"] == k:
+                    return m
+            raise Raised("KeyError", repr(k), n)
         if isinstance(o, (int, Fraction, Rat)) or o is None:
             raise Raised("TypeError", f"'{type(o).__name__}' object is not subscriptable", n)
         raise Undecided(f"subscript of {type(o).__name__}")
@@ -3470,8 +3550,16 @@ def _it(x):
     return list(_DUMMY.iterate(x))
 
 
+class PartialVal(_NativeFn):
+    """functools.partial(func, *args, **kwargs): callable, and structured (rules name a kernel by what it is made of, never by an address)."""
+
+    def __init__(self, ev, func, args, kwargs):
+        super().__init__(lambda *a2, **k2: ev.call(func, list(args) + list(a2), {**kwargs, **k2}))
+        self.func, self.args, self.keywords = func, tuple(args), dict(kwargs)
+
+
 def _partial(ev, f, *a, **k):
-    return _NativeFn(lambda *a2, **k2: ev.call(f, list(a) + list(a2), {**k, **k2}))
+    return PartialVal(ev, f, a, k)
 
 
 def _reduce(ev, f, it, *init):
@@ -3568,6 +3656,9 @@ _EXT_CALLS = {
     "operator.attrgetter": lambda ev, *ns: _NativeFn(lambda o: ev.getattr(o, ns[0], None) if len(ns) == 1 else tuple(ev.getattr(o, n, None) for n in ns)),
     "operator.getitem": lambda ev, o, k: ev.subscript(o, k),
     "functools.partial": _partial,
+    "dataclasses.fields": lambda ev, o: [record("dataclass_field_info", name=n) for n, _d, _c in ev._fields(o.cinfo)],
+    "dataclasses.is_dataclass": lambda ev, o: isinstance(o, (ObjVal, ClassVal)) and o.cinfo is not None and ev._class_kind(o.cinfo) == "dataclass",
+    "dataclasses.astuple": lambda ev, o: tuple(o.attrs[n] for n, _d, _c in ev._fields(o.cinfo)),
     "functools.reduce": _reduce,
     "functools.lru_cache": lambda ev, *a, **k: (a[0] if a and isinstance(a[0], FuncVal) else _NativeFn(lambda f: f)),
     "functools.cache": lambda ev, f: f,
